@@ -5,6 +5,10 @@ ROOT = os.path.dirname(os.path.dirname(os.path.abspath(__file__)))
 
 # id -> (technique, level text, level note, design ref)
 CHECKS = {
+ "C18": ("differential between output channels (render vs render_to into a Vec, a 1-byte writer, a short-write writer with interruptions) and fault enumeration of a failing writer (every byte offset, every write call) with the prefix invariant, for all four API variants; purity (repeatability, context equality); barrier-released thread stress against a sequential baseline; compile-time Send + Sync probe crate",
+         "Fault enumeration + exploration: a fixed rich instance (inheritance with super(), nested blocks, block in a capture, includes 2 deep, components, failing templates) x 28 requests x 12 contexts and 120k generated C03 programs (quick; x20 thorough); every failure offset for outputs <= 400 bytes (sampled beyond) and every write call; 72k concurrent renders on 12 threads per quick run while clones are created, reconfigured and dropped.",
+         "Trusted base: the three test writers in harness/src/props/c18.rs. Interleavings are sampled by the OS scheduler, not enumerated (rendering takes &self, per-render state lives in State); a data race needing a precise interleaving is out of reach of this technique. Send/Sync is a compile-time fact checked by building harness/probe.",
+         "DESIGN.md section 4 C18"),
  "C07": ("robustness search with an end-of-render state invariant (cfg-guarded hook) and an exhaustive reference-injection enumeration: generated valid programs rendered with hostile contexts in crash-isolated workers (oracle: Ok(valid UTF-8) or Err, empty engine stacks after success, no missing-reference failure at render time); every unknown filter/test/function/component/include/parent/block spelled in every syntactic position must be rejected at add time while the same position with a known name is accepted",
          "Exploration: 440k generated renders per quick run (x20 thorough): expressions placing each of the 55 built-ins with arbitrary keyword subsets over hostile values (invalid UTF-8 bytes, 64/128-bit extremes, NaN/inf/-0, explicit undefined in containers, non-string keys, maps past the scan cutoff, 23-element mixed arrays), C02 expressions and C03 programs under the same contexts, inheritance+component sets rendered whole/by block/by component; 7 very large values through every built-in; 11.7k injections (8 expression references x 33 expression positions x 19 statement positions, 5 statement references x 19, 6 whole-template cases, each unknown + known control).",
          "Trusted base: the hook check_state_empty in tera/src/verif.rs and the process supervisor. Programs whose reference evaluation exceeds a work budget are discarded before the engine runs (counted); worker timeouts are inconclusive.",
@@ -82,7 +86,7 @@ def main():
     na = [{"property_id": p, "reason": NOT_BUILT_REASON} for p in ALL if p not in CHECKS or p not in built]
     m = {
         "version": 1,
-        "setup_cmd": "cd /verif/harness && CARGO_NET_OFFLINE=true cargo build --release",
+        "setup_cmd": "cd /verif/harness && CARGO_NET_OFFLINE=true cargo build --release && cd probe && CARGO_NET_OFFLINE=true cargo build --release",
         "hooks": {
             "guard": "tera_verif",
             "enable": "RUSTFLAGS='--cfg tera_verif' (set in /verif/harness/.cargo/config.toml; the harness depends on /repo/tera and /repo/tera-contrib by path, so every check rebuilds from the working tree)",
